@@ -128,6 +128,11 @@ mod thin_cons {
 
 const ACCTS: [&str; 4] = ["a", "b", "c", "d"];
 const NOW0: u32 = 10;
+thread_local! {
+    /// ledger sequence the next run starts from (minus NOW0): ledgers and expiries are logged relative to it; runs with a
+    /// high base work next to i32::MAX, where expiry arithmetic in a narrower or signed type breaks
+    static LBASE: std::cell::Cell<u32> = const { std::cell::Cell::new(0) };
+}
 const MAX_TTL: u32 = 6_000_000;
 const BUCKET: u32 = 3200; // consecutive::IDS_IN_BUCKET
 const ITEM: u32 = 32; // consecutive::IDS_IN_ITEM
@@ -165,7 +170,8 @@ impl Sys {
     }
 
     fn new(fl: &str, imp: &str, min_temp: u32, base: u32) -> Sys {
-        let e = new_env(&LedgerCfg { seq: NOW0, min_temp, min_persistent: 1_000_000, max_ttl: MAX_TTL });
+        let lbase: u32 = LBASE.with(|c| c.get());
+        let e = new_env(&LedgerCfg { seq: lbase + NOW0, min_temp, min_persistent: 1_000_000, max_ttl: MAX_TTL });
         let names = Names::new(&e, &ACCTS);
         let admin = <Address as soroban_sdk::testutils::Address>::generate(&e);
         let st = |x: &str| SStr::from_str(&e, x);
@@ -342,11 +348,12 @@ impl Sys {
     fn step(&mut self, op: &Value) -> Value {
         let e = self.e.clone();
         set_seq(&e, seq(&e) + n(op, "dt") as u32);
-        let now = seq(&e);
+        let lbase = LBASE.with(|c| c.get());
+        let now = seq(&e) - lbase;
         let who = auth_addrs(op, &self.names);
         let kind = s(op, "op");
         let id = n(op, "id") as u32;
-        let until = n(op, "until") as u32;
+        let until = if n(op, "until") > 0 { (lbase as u64 + n(op, "until") as u64).min(u32::MAX as u64) as u32 } else { 0 };
         let Some(rid) = self.real(id) else {
             // an id beyond u32::MAX cannot be passed to the contract at all
             return json!({"op": op, "now": now, "res": "fail", "err": -8, "ret": -1, "obs": self.obs()});
@@ -432,7 +439,7 @@ impl Sys {
     }
 
     fn reset_event(&self) -> Value {
-        json!({"op": {"op": "reset", "flavour": self.fl, "imp": self.imp, "min_temp": self.min_temp, "base": self.base.to_string()},
+        json!({"op": {"op": "reset", "flavour": self.fl, "imp": self.imp, "min_temp": self.min_temp, "base": self.base.to_string(), "lbase": LBASE.with(|c| c.get()).to_string()},
                "now": NOW0, "res": "ok", "err": 0, "ret": -1, "obs": self.obs()})
     }
 }
@@ -512,7 +519,7 @@ fn pick_id(r: &mut StdRng, sys: &Sys) -> u32 {
 }
 
 fn gen_op(r: &mut StdRng, sys: &Sys, xid: &mut u32) -> Value {
-    let now = seq(&sys.e) as i64;
+    let now = (seq(&sys.e) - LBASE.with(|c| c.get())) as i64;
     let dt = if r.gen_ratio(1, 25) { 3000 } else { *pick(r, &[0i64, 0, 0, 0, 1, 1, 2, 3]) };
     let t = now + dt;
     let have = !sys.touched.is_empty() || !sys.batches.is_empty();
@@ -613,6 +620,7 @@ fn main() {
                 if b.ops.is_empty() {
                     continue;
                 }
+                LBASE.with(|c| c.set(0));
                 let has = |k: &str| b.ops.iter().any(|o| s(o, "op") == k);
                 match b.cfg.get("flavour").and_then(|v| v.as_str()) {
                     // a replay file: exactly the recorded configuration, ops verbatim
@@ -620,6 +628,7 @@ fn main() {
                         let imp = b.cfg.get("imp").and_then(|v| v.as_str()).unwrap_or("thin");
                         let mt = b.cfg.get("min_temp").and_then(|v| v.as_u64()).unwrap_or(16) as u32;
                         let base: u32 = b.cfg.get("base").and_then(|v| v.as_str()).and_then(|x| x.parse().ok()).unwrap_or(0);
+                        LBASE.with(|c| c.set(b.cfg.get("lbase").and_then(|v| v.as_str()).and_then(|x| x.parse().ok()).unwrap_or(0)));
                         run_ops_at(&mut t, fl, imp, mt, base, &b.ops);
                     }
                     // a behaviour printed by TLC: the flavour is carried by every op record
@@ -657,6 +666,7 @@ fn main() {
                 let min_temp = if r.gen_bool(0.5) { 1 } else { 16 };
                 // "high" runs of the examples: the id counter starts a few ids (or a batch or two) below u32::MAX
                 let base = if (imp == "example" || fl == "consecutive") && (run / 5) % 3 == 2 { u32::MAX - *pick(&mut r, &[15u32, 100, 5000, 40_000]) } else { 0 };
+                LBASE.with(|c| c.set(if (run / 5) % 4 == 3 { *pick(&mut r, &[i32::MAX as u32 - 30, i32::MAX as u32 - 12, 3_000_000_000u32]) } else { 0 }));
                 let mut sys = Sys::new(fl, imp, min_temp, base);
                 t.reset(sys.reset_event());
                 let mut xid: u32 = 1_000_000 + r.gen_range(0..1000);
